@@ -131,9 +131,15 @@ def run_impl(case, copy_inputs=True):
     from mpilot.exceptions import MPilotError
     lib, how, pmap = COMMANDS[case.cmd]
     cls = command_class(case.cmd)
-    inputs = [a.copy() for a in case.inputs] if copy_inputs else case.inputs
+    # a field may be listed more than once: inputs that are one object in the case are one producer command here
+    first = {}
+    for i, a in enumerate(case.inputs):
+        first.setdefault(id(a), i)
+    copies = {i: (case.inputs[i].copy() if copy_inputs else case.inputs[i]) for i in set(first.values())}
+    inputs = [copies[first[id(a)]] for a in case.inputs]
     fuzzy_in = case.cmd in FUZZY_CONSUMERS
-    prods = [Producer(a, "I%d" % i, fuzzy_in) for i, a in enumerate(inputs)]
+    uniq = {i: Producer(copies[i], "I%d" % i, fuzzy_in) for i in copies}
+    prods = [uniq[first[id(a)]] for a in case.inputs]
     kwargs = dict(case.params)
     if how == "one":
         kwargs["InFieldName"] = prods[0]
@@ -269,9 +275,15 @@ def make_array(vals, mask, shape, dtype, rng=None, payloads=True):
 
 def rand_array(rng, shape, dtype=float, lattice=None, mask_style=None):
     n = int(numpy.prod(shape))
+    tiny = lattice is None and dtype == float and rng.random() < 0.15
     if lattice is None:
         lattice = INTS if dtype == int else QUARTERS
     vals = [dtype(rng.choice(lattice)) for _ in range(n)]
+    if tiny:
+        # nonzero values far below any "approximately zero" tolerance: zero tests must be exact
+        for k in range(n):
+            if rng.random() < 0.3:
+                vals[k] = rng.choice([2.0 ** -30, -2.0 ** -30, 2.0 ** -40, -2.0 ** -36])
     return make_array(vals, rand_mask(rng, n, mask_style), shape, dtype, rng)
 
 
@@ -395,17 +407,35 @@ def gen_inputs(rng, cmd, shape=None, n=None, style="valid", dtypes=None, mask_st
         if cmd == "FuzzyXOr" and n < 2 and style != "wild":
             n = 2
     arrs = []
+    tied = None
+    if n >= 2 and rng.random() < 0.3:
+        # inputs that agree in many cells (ties for the largest/smallest value, cells where every input is fully false/true,
+        # saturated values): the cell-wise selection rules must not depend on the values being distinct
+        ncell = int(numpy.prod(shape))
+        tied = [rng.choice([-1, -1, 1, 1, 0, Fraction(1, 2), Fraction(-1, 2)]) for _ in range(ncell)]
     for i in range(n):
-        if fuzzy_in:
+        if tied is not None and (fuzzy_in or not dtypes):
+            lat = FUZZY_LATTICE if fuzzy_in else QUARTERS
+            dt = float if fuzzy_in else (int if rng.random() < 0.3 else float)
+            vals = [dt(t) if rng.random() < 0.65 else dt(rng.choice(lat)) for t in tied]
+            arrs.append(make_array(vals, rand_mask(rng, len(vals), mask_style), shape, dt, rng))
+        elif fuzzy_in:
             lat = FUZZY_LATTICE if style != "wild" or rng.random() < 0.8 else QUARTERS
             arrs.append(rand_array(rng, shape, float, lat, mask_style))
         else:
             dt = dtypes[i] if dtypes else (int if rng.random() < 0.4 else float)
             arrs.append(rand_array(rng, shape, dt, None, mask_style))
+    if how != "one" and n >= 2 and rng.random() < 0.12:
+        # the same field listed twice (one command object, one result array)
+        i, j = rng.sample(range(n), 2)
+        arrs[j] = arrs[i]
     if style == "wild" and how != "one" and n >= 2 and rng.random() < 0.12:
         # a different shape: unrelated, or differing only by length-1 axes (numpy would broadcast it silently)
         other = rand_shape(rng) if rng.random() < 0.4 else rng.choice(unit_axis_variants(shape))
         arrs[rng.randrange(n)] = rand_array(rng, other, float, FUZZY_LATTICE if fuzzy_in else None)
+        if n >= 3 and rng.random() < 0.5:
+            # and a second one of yet another shape
+            arrs[rng.randrange(n)] = rand_array(rng, rand_shape(rng), float, FUZZY_LATTICE if fuzzy_in else None)
     if style == "wild" and how == "list" and rng.random() < 0.03:
         arrs = []
     return arrs
@@ -494,7 +524,7 @@ def gen_case(rng, cmd, style="valid", **kw):
     return Case(cmd, gen_params(rng, cmd, inputs, style), inputs)
 
 
-def run_stream(ctx, model, cases, stream, tol=common.TOL, on_result=None, rerun=True):
+def run_stream(ctx, model, cases, stream, tol=common.TOL, on_result=None, rerun=True, narrow=True):
     """runs cases on implementation and model, records disagreements; calls on_result(case, out, answer)"""
     outs = []
     kept = []
@@ -527,9 +557,43 @@ def run_stream(ctx, model, cases, stream, tol=common.TOL, on_result=None, rerun=
             if d:
                 ctx.fail("%s: executing the command a second time over the same input arrays gives a different result (%s) - "
                          "the first execution modified its inputs" % (c.cmd, d), c.describe())
+        if narrow and out["status"] == "ok" and out["vis"][1] == "f" and any(a.dtype == numpy.int64 for a in c.inputs):
+            # the same integer values held in a narrower integer type (what a NetCDF byte/short variable or a typed array delivers):
+            # a floating result must not depend on the width or signedness of the integers it was computed from
+            twin = narrow_twin(ctx.rng, c)
+            if twin is not None:
+                out2 = run_impl(twin)
+                ctx.count("narrow_integer_twins")
+                d = _same(out, out2)
+                if d:
+                    ctx.fail("%s: the same integer values stored as %s give a different result (%s)" % (
+                        c.cmd, "/".join(str(a.dtype) for a in twin.inputs), d), dict(c.describe(), narrow_dtypes=[str(a.dtype) for a in twin.inputs]))
         if on_result:
             on_result(c, out, ans)
     return kept, outs, answers
+
+
+def narrow_twin(rng, case):
+    """the case with every int64 input recast to a random narrower integer type that holds all its visible values
+    (payloads under missing cells are replaced by a visible value of the array, or 0)"""
+    ins = []
+    changed = False
+    for a in case.inputs:
+        if a.dtype != numpy.int64:
+            ins.append(a)
+            continue
+        vis = a.compressed().tolist()
+        lo, hi = (min(vis), max(vis)) if vis else (0, 0)
+        fits = [dt for dt in (numpy.int8, numpy.uint8, numpy.int16, numpy.uint16, numpy.int32, numpy.uint32)
+                if numpy.iinfo(dt).min <= lo and hi <= numpy.iinfo(dt).max]
+        if not fits:
+            ins.append(a)
+            continue
+        dt = rng.choice(fits)
+        data = numpy.where(numpy.ma.getmaskarray(a), vis[0] if vis else 0, numpy.ma.getdata(a)).astype(dt)
+        ins.append(numpy.ma.array(data, mask=numpy.ma.getmaskarray(a).copy()))
+        changed = True
+    return Case(case.cmd, case.params, ins) if changed else None
 
 
 def _same(o1, o2, tol=common.TOL):
